@@ -402,3 +402,5 @@ def run(chk, facts, tier):
     sibling(chk, facts)
     from rules import c11_record
     c11_record.check(chk, facts)
+    from rules import c11_scope
+    c11_scope.check(chk, facts)
